@@ -49,7 +49,9 @@ class Ctx:
 
     # ---- recording
     def rule(self, rid: str, text: str):
-        self.rules_text[rid] = text
+        # one rule id may be stated in several parts (a rule shared with another property's module adds its own clause)
+        old = self.rules_text.get(rid)
+        self.rules_text[rid] = text if not old or text in old else (old if len(old) > 1200 else old + ' || ' + text)
 
     def ok(self, rule, instance, detail='', loc='', func='', construct=''):
         self.obls.append(Obligation(rule, str(instance), 'ok', str(detail), loc, func, construct))
